@@ -20,8 +20,9 @@ from mirsym.models import some, none
 from .irbuild import IR
 
 _prog = None
-SHAPES = 5      # 0 number, 1 s0, 2 s1, 3 s0 + s1, 4 s0 * s1 * s1
-READS = {0: set(), 1: {0}, 2: {1}, 3: {0, 1}, 4: {0, 1}}
+SHAPES = 7      # 0 number, 1 s0, 2 s1, 3 s0 + s1, 4 s0 * s1 * s1, 5 a[0], 6 a[1] * s0
+READS = {0: set(), 1: {0}, 2: {1}, 3: {0, 1}, 4: {0, 1}, 5: {2}, 6: {3, 0}}      # targets: 0 s0, 1 s1, 2 a[0], 3 a[1]
+NTGT = 4
 
 
 def prog():
@@ -33,8 +34,13 @@ def prog():
 def tasks(tier):
     n = 2 if tier == 'quick' else 3
     ts = []
-    for nn in range(1, n + 1):
-        for k0 in range(4): ts.append({'n': nn, 'k0': k0})
+    # two families: scalar signals (targets s0, s1; shapes over s0, s1) and array elements (targets s0, a[0], a[1]; shapes reading a[..])
+    for fam, tg, sh in (('scalar', [0, 1], [0, 1, 2, 3, 4]), ('array', [0, 2, 3], [0, 4, 5, 6])):
+        for nn in range(1, n + 1):
+            for k0 in range(4):
+                if fam == 'array' and nn == n and k0 != 0 and tier == 'quick': continue      # quick: the longest array programs start with the `<--`
+                if nn == 1: ts.append({'n': nn, 'k0': k0, 'family': fam, 'tgts': tg, 'shapes': sh})
+                else: ts += [{'n': nn, 'k0': k0, 'family': fam, 'tgts': tg, 'shapes': sh, 't0': t0, 's0': s0} for t0 in tg for s0 in sh]
     return ts
 
 
@@ -46,10 +52,16 @@ def run_task(task):
     dk = [z3.Bool('degknown%d' % i) for i in range(n)]; hi = [z3.Int('deghi%d' % i) for i in range(n)]; dt = z3.Int('deftype')
     h.inputs = dict([(v.decl().name(), v) for v in kind + tgt + shp + dk + hi] + [('deftype', dt)])
     dvs = pr.defs.enum_variants('DefinitionType')
-    base = [z3.And(k >= 0, k <= 3) for k in kind] + [z3.And(t >= 0, t <= 1) for t in tgt] + [z3.And(s >= 0, s < SHAPES) for s in shp] + [z3.And(x >= 0, x <= 3) for x in hi] + [dt >= 0, dt < len(dvs)]
+    base = [z3.And(k >= 0, k <= 3) for k in kind] + [z3.And(t >= 0, t < NTGT) for t in tgt] + [z3.And(s >= 0, s < SHAPES) for s in shp] + [z3.And(x >= 0, x <= 3) for x in hi] + [dt >= 0, dt < len(dvs)]
     base.append(kind[0] == task['k0'])
+    if 't0' in task: base += [tgt[0] == task['t0'], shp[0] == task['s0']]
+    base += [z3.Or(*[t == x for x in task.get('tgts', [0, 1])]) for t in tgt] + [z3.Or(*[sv == x for x in task.get('shapes', [0, 1, 2, 3, 4])]) for sv in shp]
     sig = lambda: ir.vtype('signal', 'Input')
-    S = lambda i, loc: ir.variable('s%d' % i, meta=ir.meta(loc, loc + 2, vtype=sig()))
+    def S(i, loc):
+        if i < 2: return ir.variable('s%d' % i, meta=ir.meta(loc, loc + 2, vtype=sig()))
+        return ir.access('a', [ir.array_access(ir.number(i - 2))], meta=ir.meta(loc, loc + 2, vtype=sig()))
+    tname = lambda i: 's%d' % i if i < 2 else 'a'
+
 
     def expr(shape, loc, degree):
         m = lambda: ir.meta(loc, loc + 5, degree=degree)
@@ -58,7 +70,9 @@ def run_task(task):
         elif shape == 1: e = ir.variable('s0', meta=ir.meta(loc, loc + 5, vtype=sig(), degree=degree))
         elif shape == 2: e = ir.variable('s1', meta=ir.meta(loc, loc + 5, vtype=sig(), degree=degree))
         elif shape == 3: e = ir.infix('Add', S(0, loc), S(1, loc + 3), meta=m())
-        else: e = ir.infix('Mul', S(0, loc), ir.infix('Mul', S(1, loc + 2), S(1, loc + 4)), meta=m())
+        elif shape == 4: e = ir.infix('Mul', S(0, loc), ir.infix('Mul', S(1, loc + 2), S(1, loc + 4)), meta=m())
+        elif shape == 5: e = ir.access('a', [ir.array_access(ir.number(0))], meta=ir.meta(loc, loc + 5, vtype=sig(), degree=degree))
+        else: e = ir.infix('Mul', S(3, loc), S(0, loc + 3), meta=m())
         return e
 
     captured = {}
@@ -74,7 +88,7 @@ def run_task(task):
     stats = Stats()
 
     def mk(ex):
-        ks = [ex.concretize(k, 0, 3) for k in kind]; ts_ = [ex.concretize(t, 0, 1) for t in tgt]; ss = [ex.concretize(s, 0, SHAPES - 1) for s in shp]
+        ks = [ex.concretize(k, 0, 3) for k in kind]; ts_ = [ex.concretize(t, 0, NTGT - 1) for t in tgt]; ss = [ex.concretize(s, 0, SHAPES - 1) for s in shp]
         kn = [ex.decide(d) for d in dk]
         ex.notes.update(ks=ks, ts=ts_, ss=ss, kn=kn, reports=[])
         stmts = []
@@ -82,8 +96,10 @@ def run_task(task):
             loc = 100 * (i + 1)
             degree = ir.drange(0, hi[i]) if kn[i] else None
             e = expr(ss[i], loc + 20, degree)
-            if ks[i] == 0: st = ir.subst('s%d' % ts_[i], 'AssignSignal', e, meta=ir.meta(loc, loc + 40, vtype=sig()))
-            elif ks[i] == 1: st = ir.subst('s%d' % ts_[i], 'AssignConstraintSignal', e, meta=ir.meta(loc, loc + 40, vtype=sig()))
+            if ks[i] in (0, 1) and ts_[i] >= 2:
+                e = ir.update('a', [ir.array_access(ir.number(ts_[i] - 2))], e, meta=ir.meta(loc + 20, loc + 25, vtype=sig(), degree=degree))
+            if ks[i] == 0: st = ir.subst(tname(ts_[i]), 'AssignSignal', e, meta=ir.meta(loc, loc + 40, vtype=sig()))
+            elif ks[i] == 1: st = ir.subst(tname(ts_[i]), 'AssignConstraintSignal', e, meta=ir.meta(loc, loc + 40, vtype=sig()))
             elif ks[i] == 2: st = ir.constraint_eq(S(ts_[i], loc + 1), e, meta=ir.meta(loc, loc + 40))
             else: st = ir.subst(ir.name('x', version=i), 'AssignLocalOrComponent', e, meta=ir.meta(loc, loc + 40, vtype=ir.vtype('local')))
             cell = [st]
@@ -109,7 +125,7 @@ def run_task(task):
             ex.oblige(len(mine) == 1, 'anchor', 'exactly one finding is anchored at `<--` statement %d' % i, extra={'ks': ks, 'ts': ts_, 'ss': ss})
             if len(mine) != 1: continue
             k, w = mine[0]
-            ex.oblige(ir.get(ir.get(w, 'signal'), 'name').concrete() == 's%d' % ts_[i], 'anchor', 'the finding names the assigned signal')
+            ex.oblige(ir.get(ir.get(w, 'signal'), 'name').concrete() == tname(ts_[i]) and len(ir.get(w, 'access').items) == (1 if ts_[i] >= 2 else 0), 'anchor', 'the finding names the assigned signal (with its index)')
             quad = z3.And(hi[i] <= 2) if kn[i] else z3.BoolVal(False)
             ex.oblige(simp(eq(k == 'CS0013', quad)), 'classification', 'statement %d: `unnecessary` iff the rhs degree is known and at most quadratic' % i)
             if k == 'CS0005':
@@ -117,15 +133,16 @@ def run_task(task):
                 must = sorted(100 * (j + 1) for j in range(n) if (ks[j] == 2 and (ts_[i] in READS[ss[j]] or ts_[j] == ts_[i])) or (ks[j] == 1 and ts_[i] in READS[ss[j]]))
                 may = sorted(100 * (j + 1) for j in range(n) if ks[j] == 1 and ts_[j] == ts_[i])
                 ok_ = all(x in got for x in must) and all(x in must or x in may for x in got) and len(set(got)) == len(got)
-                ex.oblige(ok_, 'secondary', 'statement %d: secondary locations are exactly the constraints mentioning s%d (got %s, expected %s)' % (i, ts_[i], got, must),
+                ex.oblige(ok_, 'secondary', 'statement %d: secondary locations are exactly the constraints mentioning target %d (got %s, expected %s)' % (i, ts_[i], got, must),
                           extra={'ks': ks, 'ts': ts_, 'ss': ss})
     st, vs, inc = explore(h, fn, mk, post=post, base=base, stats=stats, seed=common.seed())
     return {'stats': common.pack_stats(stats), 'violations': [common.pack_violation(v) for v in vs]}
 
 
 # ----------------------------------------------------------------------------- replay through the real pipeline
-EXPR_SRC = {0: '3', 1: 's0', 2: 's1', 3: 's0 + s1', 4: 's0 * s1 * s1'}
-EXPR_DEG = {0: 0, 1: 1, 2: 1, 3: 1, 4: 3}
+EXPR_SRC = {0: '3', 1: 's0', 2: 's1', 3: 's0 + s1', 4: 's0 * s1 * s1', 5: 'a[0]', 6: 'a[1] * s0'}
+EXPR_DEG = {0: 0, 1: 1, 2: 1, 3: 1, 4: 3, 5: 1, 6: 2}
+TSRC = {0: 's0', 1: 's1', 2: 'a[0]', 3: 'a[1]'}
 NAT = None
 
 
@@ -137,13 +154,13 @@ def confirm(v, n):
     dtn = dts.get(m.get('deftype', 0), 'Template')
     if dtn == 'Function': return None, 'signals cannot be assigned in a function in real Circom source', None
     lines = []; spans = []
-    head = 'pragma circom 2.0.0;\ntemplate %sT() {\n    signal input s0;\n    signal input s1;\n' % ('custom ' if dtn == 'CustomTemplate' else '')
+    head = 'pragma circom 2.0.0;\ntemplate %sT() {\n    signal input s0;\n    signal input s1;\n    signal output a[2];\n' % ('custom ' if dtn == 'CustomTemplate' else '')
     body = head
     for i in range(n):
         e = EXPR_SRC[ss[i]]
-        if ks[i] == 0: line = 's%d <-- %s;' % (ts_[i], e)
-        elif ks[i] == 1: line = 's%d <== %s;' % (ts_[i], e)
-        elif ks[i] == 2: line = 's%d === %s;' % (ts_[i], e)
+        if ks[i] == 0: line = '%s <-- %s;' % (TSRC[ts_[i]], e)
+        elif ks[i] == 1: line = '%s <== %s;' % (TSRC[ts_[i]], e)
+        elif ks[i] == 2: line = '%s === %s;' % (TSRC[ts_[i]], e)
         else: line = 'var x%d = %s;' % (i, e)
         body += '    '; start = len(body.encode()); body += line; spans.append((start, start + len(line) - 1)); body += '\n'
     body += '}\n'
@@ -172,7 +189,7 @@ def confirm(v, n):
     if not bad:
         for (r, s, k) in exp:
             g = [x for x in got if x[0] == r and x[1] == s][0]
-            may = sum(1 for j in range(n) if ks[j] == 1 and ts_[j] in (0, 1))
+            may = sum(1 for j in range(n) if ks[j] == 1)
             if r == 'CS0005' and not (k <= g[2] <= k + may): bad = True
     return bad, got, sorted(exp)
 
@@ -213,8 +230,8 @@ def main(tier, replay=None):
         rep.inconclusive.append('%d solver models did not reproduce natively, e.g. %s' % (len(rep.nonrepro), json.dumps(rep.nonrepro[0], default=str)[:400]))
     if NAT: NAT.close()
     pr = prog()
-    rep.bounds = {'statements': '1..%d per template, kinds {<--, <==, ===, local =} symbolic, 2 signals, 5 expression shapes, rhs degree knowledge unknown or any range, all definition types' % (2 if tier == 'quick' else 3)}
+    rep.bounds = {'statements': '1..%d per template, kinds {<--, <==, ===, local =} symbolic; scalar family: 2 signals, 5 expression shapes; array family: s0 and the elements a[0], a[1] as targets, 4 shapes reading them; rhs degree knowledge unknown or any range, all definition types' % (2 if tier == 'quick' else 3)}
     rep.stubs = ['SignalAssignmentWarning::into_report / UnecessarySignalAssignmentWarning::into_report (argument captured)']
     rep.assumptions = ['HashSet<Assignment>/HashSet<Constraint> modelled as association lists (insertion order)', 'source hash ' + pr.hashes['analysis']]
-    rep.outside = ['desugaring of tuple / anonymous-component forms and IR lifting (the statements are built in IR form)', 'array-element and component-port targets', 'more than %d statements' % (2 if tier == 'quick' else 3)]
+    rep.outside = ['desugaring of tuple / anonymous-component forms and IR lifting (the statements are built in IR form)', 'component-port targets, array elements with non-constant indices', 'more than %d statements' % (2 if tier == 'quick' else 3)]
     return rep.finish()
